@@ -2,6 +2,7 @@
 import re
 
 from .. import lib, mir
+from .. import lib_sw as S
 from ..mir import render
 
 EXPLANATION = ("Path counting over the MIR CFG: (a) in Pool::poll every path after a successful pending.remove emits exactly "
@@ -9,7 +10,9 @@ EXPLANATION = ("Path counting over the MIR CFG: (a) in Pool::poll every path aft
                "from the established map; (c) Swarm::handle_pool_event: per PoolEvent arm the (min,max) count of each "
                "behaviour event / SwarmEvent / spawn_connection on all paths equals the allowed row; (d) the behaviour is "
                "told before the twin SwarmEvent is queued; (e) the three pool task coroutines send exactly one terminal "
-               "event on every terminating path; (f) lifecycle SwarmEvents are constructed only in the two handlers.")
+               "event on every terminating path; (f) lifecycle SwarmEvents are constructed only in the two handlers; (g) the pending "
+               "map is structurally changed only by add_outgoing/add_incoming (insert) and Pool::poll (the removes that are paired "
+               "with an outcome event) — an id can neither be forgotten nor dropped from the map without its event.")
 ASSUMPTIONS = ["FIFO delivery of futures::mpsc between pool tasks and Pool::poll", "user Executors run spawned tasks",
                "multi-swarm interleavings are not analysed"]
 SW = "libp2p_swarm"
@@ -19,7 +22,9 @@ OUTCOME = {"ConnectionEstablished", "PendingOutboundConnectionError", "PendingIn
 
 def check(ctx):
     prog = ctx.prog
-    p = ctx.body(SW, r"pool::Pool::poll$")
+    F_PEND = S.role(prog, "pool.pending")
+    F_EST = S.role(prog, "pool.established")
+    p = S.nbody(ctx, r"pool::Pool::poll$")
     rets = p.return_blocks()
     # ---------------- (a) outcome events in Pool::poll
     cl = [b for b in prog.children(p) if b.kind == "closure"]
@@ -54,11 +59,11 @@ def check(ctx):
     ctx.ob("outcome", "floor:check_peer_id Err edge", len(err_edges) == 1, msg="Err edge of check_peer_id(): %s" % sorted(err_edges), nontrivial=False)
     err_tgt = [t for (_, t) in err_edges]
     markers = set(lib.bbs(ev_sites)) | set(err_tgt)
-    prem = [s for s in p.call_sites(r"HashMap::remove$") if re.match(r"^std::collections::HashMap::remove\(self\.pending,", render(p.site_expr(s)))]
+    prem = [s for s in p.call_sites(r"HashMap::remove$") if render(p.site_expr(s)[2][0]) == "self." + F_PEND]
     ctx.floor("outcome", "pending.remove sites", prem, 2)
     for s in prem:
         arm = "ConnectionEstablished" if "ConnectionEstablished.id" in render(p.site_expr(s)) else "PendingFailed"
-        none_edges = lib.switch_edges_on_site(p, s, {"None"}, r"^discr\(std::collections::HashMap::remove\(self\.pending")
+        none_edges = lib.switch_edges_on_site(p, s, {"None"}, r"^discr\(std::collections::HashMap::remove\(")
         lib.expect_count(ctx, "outcome", arm + ": one outcome event after pending.remove", p, p.succ[s.bb], rets, markers, (1, 1),
                          "PoolEvent::{ConnectionEstablished|PendingOutboundConnectionError|PendingInboundConnectionError}",
                          s.loc(), blocked_edges=none_edges)
@@ -75,7 +80,9 @@ def check(ctx):
     # ---------------- (b) ConnectionClosed after established remove
     closed = p.agg_sites(PE, "ConnectionClosed")
     ctx.floor("closed", "PoolEvent::ConnectionClosed constructions", closed, 1)
-    erem = [s for s in p.call_sites(r"HashMap::remove$") if re.search(r"^std::collections::HashMap::remove\(std::option::Option::expect\(std::collections::HashMap::get_mut\(self\.established", render(p.site_expr(s)))]
+    erem = [s for s in p.call_sites(r"HashMap::remove$") if p.site_expr(s)[2][0][0] == "call" and
+            any(c[2] and render(c[2][0]) == "self." + F_EST for c in mir.calls_in(p.site_expr(s)[2][0], r"HashMap::get_mut$"))]
+    ctx.floor("closed", "removal from the per-peer established map", erem, 1)
     for s in closed:
         lib.precedes(ctx, "closed", "Closed only if established", p, lib.bbs(erem), [s.bb],
                      "ConnectionClosed is built after connections.remove(id).expect(..)", s.loc())
@@ -86,10 +93,16 @@ def check(ctx):
             if s.stmt["r"]["variant"] in OUTCOME | {"ConnectionClosed"}:
                 who.add(b.npath)
     ctx.ob("who-constructs", "PoolEvent lifecycle variants", who == {p.npath, chk.npath}, msg="constructed in %s" % sorted(who))
+    # ---------------- (g) an id leaves `pending` only through the removes above; it enters only through add_outgoing/add_incoming
+    S.check_mutators(ctx, "who-mutates", "Pool.pending", prog, F_PEND, r"connection::pool::Pool$",
+                     {"::Pool::add_outgoing": {"insert"}, "::Pool::add_incoming": {"insert"}, "::Pool::poll": {"remove"}}, floor=4)
 
     # ---------------- (c)+(d) handle_pool_event
-    h = ctx.body(SW, r"^libp2p_swarm::Swarm::handle_pool_event$")
+    h = S.nbody(ctx, r"^libp2p_swarm::Swarm::handle_pool_event$")
     hrets = h.return_blocks()
+    ev_q = S.role(prog, "swarm.events")
+    i_ev = S.param_of_type(h, r"connection::pool::PoolEvent<")
+    DISPATCH = r"^discr\(p%d\)$" % i_ev
     FS = r"behaviour::FromSwarm$"
     SE = r"^libp2p_swarm::SwarmEvent$"
 
@@ -100,7 +113,7 @@ def check(ctx):
         out = []
         for s in h.call_sites(r"VecDeque::push_back$"):
             e = h.site_expr(s)
-            if "pending_swarm_events" in render(e[2][0]) and variant in lib.agg_variants(e[2][1], SE):
+            if S.has_field(e[2][0], ev_q) and variant in lib.agg_variants(e[2][1], SE):
                 out.append(s.bb)
         return out
     spawn = lib.bbs(h.call_sites(r"pool::Pool::spawn_connection$"))
@@ -120,7 +133,7 @@ def check(ctx):
         "ConnectionEvent": {}, "AddressChange": {},
     }
     for arm, row in rows.items():
-        ents = lib.arm_entry(h, r"^discr\(event\)$", arm)
+        ents = lib.arm_entry(h, DISPATCH, arm)
         ctx.ob("arm-table", "floor:arm " + arm, len(ents) == 1, msg="arm entry for PoolEvent::%s: %s" % (arm, ents), nontrivial=False)
         if not ents:
             continue
@@ -128,7 +141,7 @@ def check(ctx):
             want = row.get(k, (0, 0))
             lib.expect_count(ctx, "arm-table", "%s/%s" % (arm, k), h, [ents[0][1]], hrets, v, want, "PoolEvent::%s arm, %s" % (arm, k))
     # ConnectionEstablished arm: accepted paths (reach spawn_connection) vs denied paths
-    ents = lib.arm_entry(h, r"^discr\(event\)$", "ConnectionEstablished")
+    ents = lib.arm_entry(h, DISPATCH, "ConnectionEstablished")
     ctx.ob("arm-table", "floor:arm ConnectionEstablished", len(ents) == 1, msg=str(ents), nontrivial=False)
     if ents and spawn:
         e0 = ents[0][1]
@@ -182,14 +195,23 @@ def check(ctx):
     # ids in task events are the task's own connection id
     for body_pat in (r"pool::task::new_for_pending_outgoing_connection::\{closure#0\}$", r"pool::task::new_for_pending_incoming_connection::\{closure#0\}$",
                      r"pool::task::new_for_established_connection::\{closure#0\}$"):
-        c = ctx.body(SW, body_pat, "coroutine")
+        c = S.nbody(ctx, body_pat, "coroutine")
+        # the task's own connection id: the ConnectionId parameter of the async fn, captured by its coroutine
+        par = S.neutral(prog.body(SW, "^" + re.escape(mir.strip_generics(c.parent)) + "$")) if c.parent else None
+        k_id = None
+        if par is not None:
+            i_id = S.param_of_type(par, r"^connection::ConnectionId$")
+            for st_ in par.stmt_sites(lambda st: st["k"] == "assign" and st["r"]["k"] == "agg" and st["r"].get("def") == c.path):
+                caps = par.site_expr(st_)[2]
+                ks = [i for i, x in enumerate(caps) if x[0] == "arg" and x[1] == i_id]
+                k_id = ks[0] if len(ks) == 1 else None
         bad = []
         n = 0
         for s in c.agg_sites(r"pool::task::(Pending|Established)ConnectionEvent$"):
             e = c.site_expr(s)
             idv = dict(e[4]).get("id")
             n += 1
-            if idv is None or render(idv) != "^connection_id":
+            if idv is None or k_id is None or re.match(r"^\^\*?u%d$" % k_id, render(idv)) is None:
                 bad.append((s.loc(), render(idv) if idv else None))
         ctx.ob("task-id", c.short.split("::")[-2], not bad and n >= 3, "%s:%d" % (c.file, c.line), "event ids = task's connection_id (%d events) %s" % (n, bad))
 
